@@ -1,0 +1,18 @@
+//go:build verif
+
+package ent
+
+import (
+	"github.com/ngicks/gokugen/def"
+	"github.com/ngicks/mockable"
+)
+
+// VerifSetClock replaces the clock. Verification builds only.
+func (r *EntRepository) VerifSetClock(c mockable.Clock) {
+	r.clock = c
+}
+
+// VerifSetIdGen replaces the id generator. Verification builds only.
+func (r *EntRepository) VerifSetIdGen(g def.RandStrGen) {
+	r.randStrGen = g
+}
